@@ -24,6 +24,9 @@ def parseRound (s : String) : Option (Round × Option Nat) :=
     -- read is a failed handler, whatever the kind
     let digits := String.ofList (fl.toList.takeWhile Char.isDigit)
     let fail ← if fl = "n" then some none else if pan.isSome then some pan else (digits.toNat?).map some
+    -- `s@<h>` / `x@<h>`: a retry request for height h is handled (by the retry message handler that shares the chain
+    -- config with the listener) right before this round; it must not influence the scan
+    let st := (st.splitOn "@").headD st
     let ok ← if st = "s" then some true else if st = "x" then some false else none
     let crash ← match rest with
       | [] => some (pan.map (· + 1))
@@ -168,6 +171,26 @@ def handle (op : String) (args : List String) (impl : String) : Option Verdict :
     let reads := items readsPart.toString ","
     let ok := reads.all (fun r => r == s!"{h}.{h}") && (reads.isEmpty || decide (conf ≤ l - h))
     return ⟨m, ok, s!"evmretryreal:ready={ready}:faults={min nf 3}"⟩
+  | "retrypair", [kind, la, ha, lb, hb, conf, order] => some <| Id.run do
+    let some la := la.toInt? | return bad
+    let some ha := ha.toInt? | return bad
+    let some lb := lb.toInt? | return bad
+    let some hb := hb.toInt? | return bad
+    let some conf := conf.toInt? | return bad
+    -- each request is judged against ITS OWN height and the head IT read, whatever else the handler is doing
+    let rdy := fun (l h : Int) => if kind == "sub" then subRetryMsgReady l h else retryReady l h conf
+    let cnf := fun (l h : Int) => if kind == "sub" then decide (h ≤ l) else decide (conf ≤ l - h)
+    let ra := rdy la ha
+    let rb := rdy lb hb
+    let procs := ((if ra then [s!"{ha}.{ha}"] else []) ++ (if rb then [s!"{hb}.{hb}"] else [])).mergeSort (· ≤ ·)
+    let m := s!"A:{if ra then "ok" else "err"}#B:{if rb then "ok" else "err"}#proc:{joinOr procs ","}"
+    let ok := match impl.splitOn "#" with
+      | [a, b, p] =>
+        (a != "A:ok" || cnf la ha) && (b != "B:ok" || cnf lb hb) &&
+        (items (p.drop 5).toString ",").all fun x =>
+          (x == s!"{ha}.{ha}" && cnf la ha) || (x == s!"{hb}.{hb}" && cnf lb hb)
+      | _ => false
+    return ⟨m, ok, s!"retrypair:{kind}:{order}:a={ra}:b={rb}"⟩
   | "evmretrymsg", [latest, h, conf] => some <| Id.run do
     let some latest := parseHead latest | return bad
     let some conf := conf.toInt? | return bad
